@@ -62,3 +62,24 @@ Print Assumptions C19_fit_commutes_with_rescaling.
 
 Example C19_example : lower_median [3; 1; 4; 1; 5; 9]%Q = 3%Q /\ lower_median (map (Qmult 2) [3; 1; 4; 1; 5; 9])%Q = (2 * 3)%Q.
 Proof. vm_compute. split; reflexivity. Qed.
+
+(* ---------- the bandwidth update as the code performs it (re-translated from the source on every run: harness/bwops.py, kernelops.py) ---------- *)
+Require Import XV.Real.BwOps.
+(* every kernel hands _adapt_bandwidth the matrix of (kernel-norm distance)^q (checked by translation); the element-wise root undoes the power, so the
+   stored bandwidth is base * median of the pairwise DISTANCES whenever that median is not below eps ... *)
+Theorem C19_stored_bandwidth_is_base_times_median : forall (base q eps : R) (med : list R -> R) (ds : list R),
+  (0 < q)%R -> Forall (fun d => (0 <= d)%R) ds -> (eps <= med ds)%R ->
+  adapt_bandwidth base q eps med (map (fun d => pw d q) ds) = (base * med ds)%R.
+Proof. exact adapt_bandwidth_is_base_times_median. Qed.
+(* ... falls back to the base bandwidth for degenerate data ... *)
+Theorem C19_degenerate_data_keeps_base_bandwidth : forall (base q eps : R) (med : list R -> R) (ds : list R),
+  (0 < q)%R -> Forall (fun d => (0 <= d)%R) ds -> (med ds < eps)%R ->
+  adapt_bandwidth base q eps med (map (fun d => pw d q) ds) = base.
+Proof. exact adapt_bandwidth_degenerate. Qed.
+(* ... and is homogeneous of degree one in the data: the hypothesis of the composition theorem above *)
+Theorem C19_bandwidth_update_is_homogeneous : forall (base q eps : R) (med : list R -> R) (c : R) (ds : list R),
+  (0 < q)%R -> (0 < c)%R -> Forall (fun d => (0 <= d)%R) ds -> med (map (Rmult c) ds) = (c * med ds)%R -> (eps <= med ds)%R -> (eps <= c * med ds)%R ->
+  adapt_bandwidth base q eps med (map (fun d => pw d q) (map (Rmult c) ds)) = (c * adapt_bandwidth base q eps med (map (fun d => pw d q) ds))%R.
+Proof. exact adapt_bandwidth_homogeneous. Qed.
+Print Assumptions C19_stored_bandwidth_is_base_times_median.
+Print Assumptions C19_bandwidth_update_is_homogeneous.
